@@ -34,6 +34,19 @@ from .bpf import MapFlags, MapType, create_map, lookup_elem, update_elem
 from .ebpf import Expression, FuncId, Map, MemoryDesc, fmtsize
 
 
+def possible_cpus():
+    """the number of possible CPUs
+
+    This, not the number of CPUs currently online, is how many values
+    the kernel copies for an element of a per-CPU map."""
+    try:
+        with open("/sys/devices/system/cpu/possible") as fin:
+            ranges = fin.read().strip().split(",")
+        return max(int(r.rpartition("-")[2]) for r in ranges) + 1
+    except (OSError, ValueError):
+        return cpu_count()
+
+
 class ArrayGlobalVarDesc(MemoryDesc):
     def __init__(self, map, fmt):
         self.map = map
@@ -218,7 +231,7 @@ class PerCPUArrayMap(ArrayMap):
         return PerCPUVarDesc(self, fmt)
 
     def create_map(self, ebpf, fd):
-        self.cpu_no = cpu_count()
+        self.cpu_no = possible_cpus()
         if fd is None:
             fd = create_map(MapType.PERCPU_ARRAY, 4, self.size, 1)
         setattr(ebpf, self.name, PerCPUReader(self, fd))
